@@ -41,11 +41,14 @@ TEXT["C01"] = ("Refinement theorems, unbounded in history length: for every well
                "erases end at the end of the vector; the element-wise relocation of erase for non-trivial types is executed in the "
                "correspondence run only (and is a known finding for overlapping moves). Correspondence: long random histories on every list "
                "category x value-type category, every field of every element after every operation.")
-TEXT["C02"] = ("Theorem for lists without VaryingSize: stride = size rounded to the storage alignment is exact, so a block constructed for N "
-               "elements holds N strides and every element ends inside it, for all parameter lists, alignments and fixed sizes (induction "
-               "over the size fold). PARTIAL: sufficiency of the worst-case padding for lists with VaryingSize is not yet a theorem; it is "
-               "covered by the correspondence run (blocks filled to exactly N elements and B bytes in many residue patterns under a guard-zone "
-               "allocator and ASan, footprint against the model's formula).")
+TEXT["C02"] = ("Theorems for every well-formed parameter list, all alignments, fixed sizes and every distribution of the varying sizes: "
+               "calculate_element_size over-approximates the real extent of every element (induction over the size fold with the "
+               "invariant 'real address = m*bracket + offset', worst-case padding where the bracket is too small; exact without "
+               "VaryingSize), hence a block constructed or reserved for N elements and B payload bytes contains every element of any "
+               "sequence of at most N elements with at most B payload bytes, data_end() included (both locators), along every history. "
+               "Table-slot reads of erase/clear/data() are covered by the correspondence run (ASan, guard zones, junk-filled fresh "
+               "memory), as is the tie of the size formulas to the code (element size/stride/memory_consumption compared on every "
+               "construction and reserve; blocks filled to exactly N and B in many residue patterns).")
 TEXT["C06"] = ("Theorems over the live-record model of the block: after every history (memmove path; all value types when nothing is "
                "relocated) the live records are exactly the logically held elements, pairwise disjoint, and no operation ever constructed "
                "over a live record or relocated from a dead one (poison flag never raised); moved-from vectors hold nothing. The full "
@@ -59,8 +62,8 @@ TEXT["C09"] = ("Theorems on the multi-vector model: copy construction/assignment
                "assignment/swap/copy/move matrix over states (empty, zero-capacity, partly filled, full, moved-from) and allocator "
                "relationships, both operands observed afterwards.")
 TEXT["C10"] = ("Theorems: reserve within capacity is the identity on the whole state; capacity afterwards is max(capacity, n); size, fixed "
-               "sizes and every element are unchanged at every fill level (both locators), also under repeated reserves. The room part "
-               "(n elements with b bytes fit) is C02. Correspondence: reserves at every fill level with shrinking and growing budgets "
+               "sizes and every element are unchanged at every fill level (both locators), also under repeated reserves; after a reserve beyond "
+               "capacity any n elements with b payload bytes fit the new block (C02.reserve_room). Correspondence: reserves at every fill level with shrinking and growing budgets "
                "followed by fills to the new limits under the guard-zone allocator.")
 TEXT["C16"] = ("Theorems: emplace_back, pop_back, clear keep the offset of every stored element, erase keeps the offsets in front of the "
                "erased position (both relocation paths), none of them changes the block, the table or the capacity or touches the allocator "
